@@ -130,6 +130,10 @@ class Sut:
             return gen.assemble_data_burst(lc, DataTypes.VoiceLCHeader if cls == "VH" else DataTypes.TerminatorWithLC, cc, sync), D
         if cls == "VS":
             return gen.voice_sync_burst(rng), BurstTypes.Vocoder
+        if cls == "VE" and cc < 0:
+            # a voice burst B..F whose centre is the Reserved SYNC pattern: no superframe start, no EMB, no colour code (cc -1) - for
+            # the tracker it is a voice burst like the ones with embedded signalling
+            return gen.voice_sync_burst(rng, "Reserved"), BurstTypes.Vocoder
         if cls == "VE":
             return gen.voice_emb_burst(rng, colour_code=cc, pi=rng.getrandbits(1), lcss=rng.randrange(4)), BurstTypes.Vocoder
         if cls == "DH":
@@ -274,6 +278,8 @@ def random_whistory(rng, n):
     def letter(cls, **kw):
         b = {"cls": cls, "id": 0, "btf": 0, "a": False, "cc": cc}
         b.update(kw)
+        if cls == "VE" and rng.random() < 0.125:
+            b["cc"] = -1          # one voice burst in eight has the Reserved SYNC pattern in its centre: it carries no colour code
         return b
 
     pending = {}      # (tgt, ts) -> queued letters of a well-formed fragment
@@ -465,6 +471,8 @@ def random_history(rng, n):
     def letter(cls, **kw):
         b = {"cls": cls, "id": 0, "btf": 0, "a": False, "cc": cc if rng.random() < 0.9 else rng.randrange(16)}
         b.update(kw)
+        if cls == "VE" and rng.random() < 0.125:
+            b["cc"] = -1          # one voice burst in eight has the Reserved SYNC pattern in its centre: it carries no colour code
         return b
 
     while len(steps) < n:
@@ -511,6 +519,8 @@ def long_history(rng, kind):
     def letter(cls, **kw):
         b = {"cls": cls, "id": 0, "btf": 0, "a": False, "cc": cc}
         b.update(kw)
+        if cls == "VE" and rng.random() < 0.125:
+            b["cc"] = -1          # one voice burst in eight has the Reserved SYNC pattern in its centre: it carries no colour code
         return b
 
     steps = []
